@@ -4,6 +4,8 @@ import (
 	"bufio"
 	"context"
 	"fmt"
+	"os"
+	"sort"
 	"strings"
 	"sync"
 	"time"
@@ -234,7 +236,17 @@ func slotKeyGen(c *simrt.Chooser, tags []string, mix bool) func() []byte {
 }
 
 func init() {
-	Register(&PropertyDef{ID: "C18", Strata: []string{"clean-sync", "clean-pipeline", "clean-parallel", "bad-sync", "bad-pipeline", "bad-parallel", "oddkeys-sync", "filtered-sync", "filtered-pipeline", "filtered-parallel"}, Run: runC18, StepCap: 30000})
+	Register(&PropertyDef{ID: "C18", Strata: append([]string{"clean-sync", "clean-pipeline", "clean-parallel", "bad-sync", "bad-pipeline", "bad-parallel", "oddkeys-sync", "filtered-sync", "filtered-pipeline", "filtered-parallel"}, c18MigratingStrata()...), Run: runC18, StepCap: 30000})
+}
+
+// c18MigratingStrata (SIM_C18_MIGRATING=1, exploration only, not part of the registered check): slots of the unit keys
+// migrate while the bidirectional cluster replay runs (wave-7 seed C19-n). On the unchanged tree the first runs show
+// partially replayed units and refused single-slot units that were not analysed (DESIGN.md 7.4 by-products).
+func c18MigratingStrata() []string {
+	if os.Getenv("SIM_C18_MIGRATING") == "1" {
+		return []string{"migrating-sync", "migrating-pipeline"}
+	}
+	return nil
 }
 
 func runC18(r *Run, stratum string) *Violation {
@@ -282,6 +294,7 @@ func runC18(r *Run, stratum string) *Violation {
 		return []byte(fmt.Sprintf("drop:{%s-d%d}%d", tag, g.Choose("droptag", 3), g.Choose("dropkey", 50)))
 	}
 	var units []unitSpec
+	migKeys := map[string]bool{}
 	nUnits := 2 + g.Choose("nunits", max)
 	badAt := -1
 	if kind == "bad" {
@@ -297,6 +310,13 @@ func runC18(r *Run, stratum string) *Violation {
 		}
 		tagSet := []string{tags[g.Choose("unittag", len(tags))]}
 		gen.opts.KeyGen = slotKeyGen(g, tagSet, false)
+		if kind == "migrating" {
+			// slots migrate while the stream is replayed: every unit works on ONE key (of a small pool per tag), so that it
+			// is never split between the two nodes of a migration (that is TRYAGAIN, a reported error - C19's business)
+			uk := []byte(fmt.Sprintf("{%s}m%d", tagSet[0], g.Choose("migkeyn", 4)))
+			gen.opts.KeyGen = func() []byte { return uk }
+			migKeys[string(uk)] = true
+		}
 		n := 1
 		us.txn = g.Choose("unittxn", 3) == 0 || badKind == "crossslot-txn"
 		if badKind == "crossslot-emptykey" {
@@ -503,6 +523,52 @@ func runC18(r *Run, stratum string) *Violation {
 			r.Logf("VIOLATION %s: %s", rule, viol.Msg)
 		}
 	}
+	// migrating kind: slots of the unit keys migrate while the stream is replayed (one at a time, key by key)
+	migrations, maxMig := 0, 1+g.Choose("nmig", 4)
+	migActions := func() []pipeAction {
+		if kind != "migrating" || len(migKeys) == 0 {
+			return nil
+		}
+		var pool []string
+		for k := range migKeys {
+			pool = append(pool, k)
+		}
+		sort.Strings(pool)
+		var acts []pipeAction
+		sc := r.Sched()
+		if len(l.topo.Migrating) == 0 && migrations < maxMig {
+			acts = append(acts, pipeAction{"migrate-begin", 2, func() {
+				k := pool[sc.Choose("migkey", len(pool))]
+				slot := simredis.HashSlot([]byte(k))
+				to := (l.topo.Owner[slot] + 1 + sc.Choose("migto", 2)) % len(l.topo.Nodes)
+				l.topo.BeginMigrate(slot, to)
+				migrations++
+				r.W.Fault("slot_migration")
+				r.Logf("MIGRATE begin slot %d: node %d -> node %d", slot, l.topo.Owner[slot], to)
+			}})
+		}
+		for slot := range l.topo.Migrating {
+			slot := slot
+			acts = append(acts, pipeAction{"migrate-key", 3, func() {
+				var cand []string
+				for _, k := range pool {
+					if simredis.HashSlot([]byte(k)) == slot && !l.topo.Moved[k] {
+						cand = append(cand, k)
+					}
+				}
+				if len(cand) == 0 || sc.Choose("migfinish", 4) == 3 {
+					l.topo.FinishMigrate(slot)
+					r.Logf("MIGRATE finish slot %d -> node %d", slot, l.topo.Owner[slot])
+					return
+				}
+				k := cand[sc.Choose("movekey", len(cand))]
+				l.topo.MoveKey(k)
+				r.Logf("MIGRATE key %q of slot %d moved", k, slot)
+			}})
+			break
+		}
+		return acts
+	}
 	errSeen := 0
 	scanErrors := func() {
 		for ; errSeen < len(l.topo.Errors); errSeen++ {
@@ -510,6 +576,8 @@ func runC18(r *Run, stratum string) *Violation {
 			switch {
 			case strings.HasPrefix(e.Reply, "CROSSSLOT"):
 				setV("C18.crossslot_sent", "a node had to answer CROSSSLOT", "node %d answered %q to %s: the tool sent keys of different slots in one request/transaction", e.Node, e.Reply, e.Exec.String())
+			case kind == "migrating" && (strings.HasPrefix(e.Reply, "MOVED") || strings.HasPrefix(e.Reply, "ASK")):
+				// a slot is on the move: redirects are the cluster's business as usual
 			case strings.HasPrefix(e.Reply, "MOVED"):
 				setV("C18.moved", "a node had to answer MOVED on a stable topology", "node %s answered %q to %s: the tool's slot computation disagrees with the cluster", e.Exec.Node, e.Reply, e.Exec.String())
 			case e.Name == "command":
@@ -528,7 +596,13 @@ func runC18(r *Run, stratum string) *Violation {
 		if l.getPhase() == 1 && l.remaining() == 0 && len(l.ready()) == 0 && r.W.ParkedNow() == 0 {
 			break
 		}
-		l.step(nil)
+		l.step(migActions())
+		if len(l.topo.Misdirected) > 0 {
+			setV("C18.asked_resident_key", "a unit was sent under ASKING to the importing node although its key still lives on the slot's owner", "%s", l.topo.Misdirected[0])
+		}
+	}
+	for slot := range l.topo.Migrating {
+		l.topo.FinishMigrate(slot)
 	}
 	// drain
 	r.Calm()
